@@ -85,6 +85,12 @@ def gen_configs(tier, seed, *, with_interrupts):
                         cfgs.append(make_cfg(name, nchain, nproc, it))
     if not with_interrupts:
         cfgs.append(make_cfg("warm+main", 2, 3, nproc_none=True))
+    else:
+        # process-group interrupts (chain = 0): every chain running at that point is interrupted
+        for name, s_, k_, site in (("warm+main", 1, 2, "trans"), ("traced-warm+main", 1, 1, "trace"),
+                                   ("traced-warm+main", 2, 2, "trace"), ("windowed", 2, 1, "trans")):
+            for nchain, nproc in ((2, 0), (2, 2), (3, 3)) + (((3, 2),) if tier == "thorough" else ()):
+                cfgs.append(make_cfg(name, nchain, nproc, {"stage": s_, "chain": 0, "k": k_, "site": site}))
     return cfgs
 
 
@@ -152,7 +158,8 @@ def expected_streams(seed, nchain, total):
     return [{float(g.random()): j + 1 for j in range(total + 2)} for g in rngs]
 
 
-def run_real(cfg, *, seed=1234, storage="mem", delays=None, event_dir=None, init_kind="state"):
+def run_real(cfg, *, seed=1234, storage="mem", delays=None, event_dir=None, init_kind="state", second_call=False,
+             signal_dir=None):
     """Execute the configuration on the real sample_chains; returns the abstract observation."""
     from mici.samplers import MarkovChainMonteCarloMethod
     from mici.states import ChainState
@@ -165,6 +172,7 @@ def run_real(cfg, *, seed=1234, storage="mem", delays=None, event_dir=None, init
     P.PLAN["interrupt"] = cfg["intr"] if cfg["intr"]["stage"] else None
     P.PLAN["delays"] = delays or {}
     P.PLAN["event_dir"] = event_dir
+    P.PLAN["signal_dir"] = signal_dir
     P._FIRED[0] = False
     P._SEQ[0] = 0
     transitions = {"stamp": P.StageStamp(bounds), "probe": P.ProbeTransition()}
@@ -192,6 +200,16 @@ def run_real(cfg, *, seed=1234, storage="mem", delays=None, event_dir=None, init
                 0, cfg["nrows"], init_states, trace_funcs=[P.probe_trace], adapters={"probe": []},
                 stager=P.FixedStager(layout), n_process=n_process, trace_warm_up=False,
                 display_progress=event_dir is not None, progress_bar_class=P.ProbeBar if event_dir else None, **kw)
+            if second_call:
+                # a second call on the SAME sampler object (other initial states): the outputs of the
+                # first call, decoded below, must not be affected by it
+                P.PLAN["interrupt"] = None
+                xs2 = [np.array([c + 10.0, 0.0, np.nan, 0.0, 0.0]) for c in range(1, nchain + 1)]
+                out2 = sampler.sample_chains(
+                    0, cfg["nrows"], [ChainState(x=x) for x in xs2], trace_funcs=[P.probe_trace],
+                    adapters={"probe": []}, stager=P.FixedStager(layout), n_process=n_process, trace_warm_up=False,
+                    display_progress=False, **kw)
+                obs["second_final"] = [[int(s_.x[0]), int(s_.x[1])] for s_ in out2.final_states]
     except BaseException as e:  # noqa: BLE001
         if isinstance(e, SystemExit):
             raise
@@ -522,3 +540,43 @@ def validate_real_traces(cfgs, records, name, timeout=900):
     if not res.ok and res.error_kind != "postcondition":
         rejected.append((-1, f"invariant {res.violated} violated while following a real trace"))
     return rejected, res
+
+
+def run_real_with_sigint(cfg, name, timeout=60):
+    """Run the configuration in a child process (own session) and deliver a real SIGINT to the whole
+    process group once every chain that can be running waits at the interrupt point."""
+    import signal
+    import subprocess
+    import sys
+    import time
+
+    d = tlc.fresh_dir(name)
+    (d / "cfg.json").write_text(json.dumps(cfg))
+    env = dict(os.environ)
+    p = subprocess.Popen([sys.executable, "-m", "mbv.sampler_sigint", str(d / "cfg.json"), str(d / "out.json"), str(d)],
+                         env=env, start_new_session=True, stdout=subprocess.DEVNULL, stderr=subprocess.PIPE)
+    want = min(cfg["nchain"], max(cfg["nproc"], 1))
+    t0 = time.time()
+    sent = False
+    while time.time() - t0 < timeout:
+        if p.poll() is not None:
+            break
+        if not sent and len(list(d.glob("at_barrier_*"))) >= want:
+            time.sleep(0.05)
+            os.killpg(p.pid, signal.SIGINT)
+            sent = True
+        time.sleep(0.01)
+    if p.poll() is None:
+        os.killpg(p.pid, signal.SIGKILL)
+        p.wait()
+        shutil.rmtree(d, ignore_errors=True)
+        return {"exception": "Timeout: sample_chains did not return after the interrupt (hung)"}
+    err = p.stderr.read().decode()[-400:]
+    if not (d / "out.json").exists():
+        shutil.rmtree(d, ignore_errors=True)
+        return {"exception": f"ChildDied: rc={p.returncode} {err}"}
+    obs = json.loads((d / "out.json").read_text())
+    shutil.rmtree(d, ignore_errors=True)
+    if not sent:
+        obs["exception"] = obs.get("exception") or "NoSignal: run finished before the barrier was reached"
+    return obs
